@@ -11,6 +11,8 @@ CONSTANTS
   Fine = FALSE
   UseRing = FALSE
   MaxWritten = 99
+  Split = FALSE
+  SelfFeed = FALSE
 VIEW View
 PROPERTY ReachSecondPeerHandover
 CHECK_DEADLOCK FALSE
